@@ -1,6 +1,6 @@
-From TL Require Import Base.Base Model.Reader Model.Printer Model.Store Model.Eval Model.Init.
+From TL Require Import Base.Base Model.Reader Model.Printer Model.Store Model.Eval Model.Init Model.Api.
 Require Import ExtrOcamlBasic.
 Extraction Language OCaml.
 Extraction "tlmodel.ml"
   eval_string eval_file parse_string init_state reset_request add_file var_items
-  print princ read_ax strip ax_span tokenize.
+  print princ read_ax strip ax_span tokenize run_ops init_world.
